@@ -297,6 +297,45 @@ Theorem C17_object_is_table_pairwise : forall nt,
 Proof. exact object_is_table_pairwise. Qed.
 Print Assumptions C17_object_is_table_pairwise.
 
+(* GENERAL: the verified checker run on the implementation's floats judges them against the TABLE formula *)
+Theorem C17_check_sound_table : forall nt,
+    net_okb nt = true -> cover_okb nt = true -> table_okb nt = true ->
+    forall T pvs, c17_checkb nt T pvs = true ->
+    forall phi v, In (phi, v) pvs -> v - mp_table nt T phi <= tol /\ mp_table nt T phi - v <= tol.
+Proof. exact check_sound_table. Qed.
+Print Assumptions C17_check_sound_table.
+
+(* GENERAL: bounds, value 0 at phi = 0, monotonicity in phi, stated for the table formula *)
+Theorem C17_table_properties : forall nt,
+    net_okb nt = true -> cover_okb nt = true -> table_okb nt = true ->
+    forall T,
+      (forall phi, 0 <= phi <= 1 -> 0 <= mp_table nt T phi <= 1)
+      /\ (forall phi, phi == 0 -> (0 < T)%nat -> mp_table nt T phi == 0)
+      /\ (forall phi phi', 0 <= phi -> phi <= phi' -> phi' <= 1 -> mp_table nt T phi <= mp_table nt T phi').
+Proof. exact table_properties. Qed.
+Print Assumptions C17_table_properties.
+
+(* GENERAL, no precondition: a solution H of the message equations in table form (at both end points of every
+   swept edge) is a fixed point of the table-based sweep.  (The converse, and convergence of the iterates to such
+   a fixed point, are NOT proved: C17_full.) *)
+Theorem C17_table_solution_is_fixed_point : forall nt phi H,
+    (forall i j id, In (i, j, id) (n_sweep nt) ->
+       H i id == expectation (motif_graph (find_motif nt id)) i phi (u_table nt H id)
+       /\ H j id == expectation (motif_graph (find_motif nt id)) j phi (u_table nt H id)) ->
+    Heq (sweep_T nt phi H) H.
+Proof. exact solution_is_fixed_point. Qed.
+Print Assumptions C17_table_solution_is_fixed_point.
+
+(* its hypothesis is satisfiable: the constant 1 ("no giant component") solves the equations of ring3 at phi = 1/2 *)
+Example C17_table_solution_nonvacuous : forall i j id, In (i, j, id) (n_sweep ring3) ->
+    (fun _ _ => 1) i id == expectation (motif_graph (find_motif ring3 id)) i (1 # 2) (u_table ring3 (fun _ _ => 1) id)
+    /\ (fun _ _ => 1) j id == expectation (motif_graph (find_motif ring3 id)) j (1 # 2) (u_table ring3 (fun _ _ => 1) id).
+Proof.
+  intros i j id Hin. cbn [ring3 n_sweep In] in Hin.
+  repeat (destruct Hin as [Hin|Hin]; [injection Hin as <- <- <-; split; vm_compute; reflexivity|]).
+  contradiction.
+Qed.
+
 (* the wire entry c17_check_table decides the preconditions (and pairwise_okb) *)
 Theorem C17_check_table_sound : forall t, c17_check_table t = of_bool true ->
     table_okb (t_net t) = true /\ cover_okb (t_net t) = true /\ net_okb (t_net t) = true
